@@ -76,6 +76,16 @@ CHECKS["C13"] = dict(
     note="Trusted: TLC, harness printer, process isolation with a lowered stack limit. MaxMacroDepth 6 (model) vs 1000 (code).",
     technique="TLA+ executable specification enumerated by TLC + exhaustive replay; isolated-process replay for recursion", ref="DESIGN.md §3 C13")
 
+CHECKS["C19"] = dict(
+    text="PongoRender.tla defines a filter chain as a left fold with each argument evaluated in the current scope when its filter is "
+         "applied, the filter tag as the chain over the rendered body, and binds tighter than any operator. TLC enumerates chains of "
+         "defined (non-commuting) filters at 21 expression positions and predicts exact output and the order of filter events; the "
+         "registry-wide families keep filters symbolic and the harness concretises ap(f,in,arg) with the public ApplyFilter - the "
+         "equivalence the property states. PongoRegistry.tla (Register/Replace/use histories) is model-checked and replayed in fresh "
+         "processes.",
+    note="Trusted: TLC, harness printer, ApplyFilter as the meaning of symbolic filters, process isolation for the global registries.",
+    technique="TLA+ executable specification enumerated by TLC + exhaustive replay with filter-event comparison; registry state machine replay", ref="DESIGN.md §3 C19")
+
 PENDING = {}
 
 def main():
